@@ -415,7 +415,11 @@ def _laysoak(args, findings, where):
     return ('ok', [target, layout, int(count), bad] + acc)
 
 
+CURRENT_CALL = [None]      # the client-level call in progress (read by checks/focusmap.py)
+
+
 def _invoke(fn, args, kw, limit, findings, where, type_only):
+    CURRENT_CALL[0] = fn
     try:
         f = _pkg_attr(fn)
         st, val = budget.run(limit, f, *args, **kw)
@@ -760,6 +764,16 @@ def execute(plan, stats=None, want_events=True):
             'nontrivial': bool(nontrivial), 'stats': st, 'cache_states': [sha([e[4] for e in events])] if events else []}
 
 
+def _plan_calls(plan, fs):
+    for cl in plan['clients']:
+        for st in cl['steps']:
+            if st['fn'] in fs:
+                return True
+            if st['fn'] in ('caller.soak', 'caller.laysoak') and st['args'] and st['args'][0] in fs:
+                return True
+    return False
+
+
 def _shared_objects(plan):
     users = {}
     for c, cl in enumerate(plan['clients']):
@@ -912,6 +926,12 @@ class Adapter(object):
         import kneeliverse  # noqa
         import kneeliverse.metrics as metrics
         budget.install()
+        if Adapter.focus is None:
+            from . import focus
+            try:
+                Adapter.focus = focus.compute()
+            except Exception as e:
+                Adapter.focus = {'changed': [], 'focus': [], 'error': str(e)[:200]}
         a = np.array([[0.0, 1.0], [1.0, 3.0], [2.0, 2.5], [3.0, 2.0]])
         ai = a.astype(np.int64)
         arr = {'fA': a[:, 1], 'fC': a[:, 1].copy(), 'iA': ai[:, 1], 'iC': ai[:, 1].copy()}
@@ -942,9 +962,21 @@ class Adapter(object):
     def worker_init(self):
         pass
 
+    focus = None        # {'changed': [...], 'focus': [...]} computed once per check from the working tree
+
     def make_plan(self, base, i, tier):
         from . import core
-        return gen_plan(core.rng_for('C20', base, i), tier, Adapter.traces)
+        rng = core.rng_for('C20', base, i)
+        plan = gen_plan(rng, tier, Adapter.traces)
+        fs = set((Adapter.focus or {}).get('focus') or [])
+        if fs:
+            # change-directed swarm: prefer plans that call into the code that differs from the baseline
+            # (same PRNG stream, up to 6 redraws; 15 % of runs keep the undirected draw)
+            tries = 0
+            while tries < 6 and not _plan_calls(plan, fs) and rng.random() < 0.85:
+                plan = gen_plan(rng, tier, Adapter.traces)
+                tries += 1
+        return plan
 
     def execute(self, plan, stats=None):
         return execute(plan, stats, want_events=False)
@@ -982,7 +1014,8 @@ class Adapter(object):
             if k.startswith('r.'):
                 _, kind, fn = k.split('.', 2)
                 ok.setdefault(fn, {})[kind] = v
-        return {'functions_reached': {'count': len(reached), 'names': reached},
+        return {'change_directed_focus': Adapter.focus,
+                'functions_reached': {'count': len(reached), 'names': reached},
                 'client_call_outcomes': {fn: ok[fn] for fn in sorted(ok)},
                 'poisoned_allocations': {k[7:]: v for k, v in sorted(st.items()) if k.startswith('poison.')},
                 'layouts_delivered': {k[7:]: v for k, v in sorted(st.items()) if k.startswith('layout.')}}
